@@ -435,4 +435,4 @@ def _join_after(f, mask_bb, write_bb, dom):
     return False
 
 # as-built addendum
-EXPLANATION += ' As built (DESIGN 9.2): R3: who reads raw buffer bytes (bit iterator, iter8/cut_bits, slice() behind both alignment tests; the number decoders read through iter8; a cell boxed for C owns byte-aligned storage). R4: positions handed to public methods are relative to the value; start()/end()/raw ranges are used inside bitstr.rs only.'
+EXPLANATION += ' As built (DESIGN 9.2): R3: who reads raw buffer bytes (bit iterator, iter8/cut_bits, slice() behind both alignment tests; the number decoders read through iter8; a cell boxed for C owns byte-aligned storage). R4: positions handed to public methods are relative to the value; start()/end()/raw ranges are used inside bitstr.rs only. R4 also: no test compares a position argument as it is with an offset into the backing buffer.'
